@@ -507,8 +507,14 @@ func pureScenarios(c *CheckRun) []*Scenario {
 		if c.Tier == "quick" {
 			pick = []int{whichs[i%len(whichs)]}
 			i++
+		} else if len(b.ops) <= 2 || b.big {
+			pick = whichs // small histories and the wide concrete bases meet every method
 		} else {
-			pick = whichs
+			// three methods per template, rotating, so that every method meets every family and every
+			// template shape over the set (all eight per template cost ~6 h for this one check)
+			n := len(whichs)
+			pick = []int{whichs[i%n], whichs[(i+3)%n], whichs[(i+5)%n]}
+			i++
 		}
 		for _, w := range pick {
 			bb := b
